@@ -116,7 +116,7 @@ def make_config(rng, dim, fam, quick, variant):
         bases.append({"basis": [{"m": H.rand_matrix(rng, r, r, vals=(-1, 1, 2)), "v": v} for v in vecs],
                       "N": 2 if quick else rng.choice((2, 3)), "pre": [1, rng.choice((1, -1)), 2, 1, 1][:4], "r": r, "c": r})
     cons = {"Dim": dim, "Inits": inits, "Scalars": [2] if quick else [-1, 2], "Mats": mats[:1] if quick else mats,
-            "Consts": consts, "TruncNs": [2] if quick else [1, 3], "Keys": keys, "Bases": bases,
+            "Consts": consts, "TruncNs": [-1, 2] if quick else [-1, 1, 3], "Keys": keys, "Bases": bases,
             "ZShapes": [list(z) for z in F["zshapes"]], "ZMin": 0, "ZMax": 4, "fam": fam}
     return cons
 
